@@ -14,10 +14,9 @@
 (*     //                                                                      *)
 (* ORACLE: records = <<name_i, Upper(seq_i)>> in file order.                   *)
 (* MODEL : transcription of iter_genbank_records(bytes) at character level.    *)
-(* TLC characterises the transcription: it equals the oracle exactly for the   *)
-(* single-record files and raises for every file with two or more records     *)
-(* (the piece after "\n//" starts with the line end, so the locus line is      *)
-(* empty) -- see GbBytesParserOkIffSingleRecord.                               *)
+(* TLC proves the transcription equal to the oracle for every generated file   *)
+(* (GbBytesParserOk); until commit e6edfb689 it raised for every file with two  *)
+(* or more records.                                                            *)
 EXTENDS Naturals, Sequences, FiniteSets, TLC, Emit
 
 CONSTANTS NRecs,      \* numbers of records per file
@@ -82,7 +81,8 @@ Err(why) == [ok |-> FALSE, recs |-> <<>>, why |-> why]
 -----------------------------------------------------------------------------
 (* MODEL: iter_genbank_records(bytes)                                          *)
 (*   for record in data.split(b"\n//"):                                        *)
-(*       if record.isspace(): continue                                         *)
+(*       record = record.lstrip()                                              *)
+(*       if not record: continue                                               *)
 (*       features, seq = record.split(b"\nORIGIN")                              *)
 (*       line = features[: features.find(b"\n")].split(); locus = line[1]      *)
 (*       seq = converter(seq)      (deletes "\n\r\t 0123456789", upper-cases)   *)
@@ -120,13 +120,16 @@ GbPiece(r) ==      \* one piece -> Rec or an error marker
              toks == Tokens(first)
          IN IF Len(toks) < 2 THEN Err("IndexError: locus") ELSE Ok(<<Rec(toks[2], Convert(parts[2]))>>)
 
+RECURSIVE LStrip(_)
+LStrip(s) == IF s = <<>> THEN s ELSE IF IsWs(Head(s)) THEN LStrip(Tail(s)) ELSE s
 RECURSIVE GbFold(_)
 GbFold(pieces) ==
     IF pieces = <<>> THEN Ok(<<>>)
-    ELSE IF IsSpace(Head(pieces)) THEN GbFold(Tail(pieces))
-    ELSE LET h == GbPiece(Head(pieces)) IN
-         IF ~h.ok THEN h
-         ELSE LET t == GbFold(Tail(pieces)) IN IF ~t.ok THEN t ELSE Ok(h.recs \o t.recs)
+    ELSE LET r == LStrip(Head(pieces)) IN          \* record = record.lstrip()
+         IF r = <<>> THEN GbFold(Tail(pieces))      \* if not record: continue
+         ELSE LET h == GbPiece(r) IN
+              IF ~h.ok THEN h
+              ELSE LET t == GbFold(Tail(pieces)) IN IF ~t.ok THEN t ELSE Ok(h.recs \o t.recs)
 GbBytesParser(lines) == GbFold(SplitSub(Flat(lines), EndPat))
 
 -----------------------------------------------------------------------------
@@ -161,10 +164,10 @@ LayoutSound ==
         /\ Convert(Concat(sl)) = Upper(case.seqs[i])
         /\ \A k \in 1..Len(sl) : Len(sl[k]) <= 9 + 66
 
-(* characterisation of the bytes-splitting parser: correct on single-record    *)
-(* files, raises on every file with more than one record                       *)
-GbBytesParserOkIffSingleRecord ==
-    Ready => LET m == GbBytesParser(FileLines(case)) IN
-             /\ (Len(case.names) = 1 => m = Ok(Exp(case)))
-             /\ (Len(case.names) > 1 => ~m.ok)
+(* the bytes-splitting parser returns the oracle for every file, whatever the  *)
+(* number of records (since commit e6edfb689; before, the piece after "\n//"   *)
+(* kept the line end, its locus line was empty and every multi-record file      *)
+(* raised: mutants/C06_prefix_genbank_multi_record.diff restores that)          *)
+GbBytesParserOk ==
+    Ready => GbBytesParser(FileLines(case)) = Ok(Exp(case))
 =============================================================================
